@@ -1,7 +1,117 @@
-/- Driver entry for property C15: one request payload in, one canonical response line out. -/
-import Molli.Util.Basic
-namespace Molli.Driver.C15
+/-
+Driver entry for property C15: one request payload in, one canonical response line out.
 
-def handle (_payload : String) : String := "err:not-implemented"
+  q n=<n> bonds=<a1-a2:btype:stereo:label:forder,...|->
+      → bfs=<start 0>;<start 1>;…  (items v:d)   dir=<bond 0 a1→a2>;<bond 0 a2→a1>;<bond 1 …  (items v:d, `err` when
+        the direction is not a neighbour)   ring=<0|1 per bond>   nb=<neighbours per atom>   bw=<bond indices per atom>
+        val=<p/q per atom>
+  m P=<atoms>;<bonds> G=<atoms>;<bonds>     atoms: element:isotope:stereo,…   (isotope `-` = None)
+      → embeddings (model order) as i.j.k|…  or `err:pattern-bond-type`
+-/
+import Molli.Util.Basic
+import Molli.Model.Graph
+import Molli.Gen.Valence
+namespace Molli.Driver.C15
+open Molli.Model.Graph Molli.Util
+
+structure DEdge where
+  idx : Nat
+  e : EdgeA
+
+def kv (ws : List String) (k : String) : Option String :=
+  ws.findSome? (fun w => match w.splitOn "=" with
+    | [a, b] => if a == k then some b else none
+    | _ => none)
+
+def items (s : String) : List String := if s == "-" || s == "" then [] else s.splitOn ","
+
+def parseRat? (s : String) : Option Rat :=
+  match s.splitOn "/" with
+  | [p] => p.toInt?.map (fun i => (i : Rat))
+  | [p, q] => do
+    let a ← p.toInt?
+    let b ← q.toNat?
+    if b = 0 then none else some (mkRat a b)
+  | _ => none
+
+def showRat (r : Rat) : String := if r.den = 1 then toString r.num else s!"{r.num}/{r.den}"
+
+def parseBond? (idx : Nat) (s : String) : Option (Bond DEdge) :=
+  match s.splitOn ":" with
+  | [ends, bt, st, lab, fo] =>
+    match ends.splitOn "-" with
+    | [a, b] => do
+      let a1 ← a.toNat?
+      let a2 ← b.toNat?
+      let bt ← bt.toNat?
+      let st ← st.toNat?
+      let fo ← parseRat? fo
+      let label := if lab == "" then none else some lab
+      some ⟨a1, a2, ⟨idx, ⟨bt, st, label, fo⟩⟩⟩
+    | _ => none
+  | _ => none
+
+def parseBonds? (s : String) : Option (List (Bond DEdge)) :=
+  let toks := items s
+  (toks.zipIdx.map (fun (t, i) => parseBond? i t)).mapM id
+
+def parseAtom? (s : String) : Option NodeA :=
+  match s.splitOn ":" with
+  | [e, iso, st] => do
+    let e ← e.toNat?
+    let st ← st.toNat?
+    let iso ← (if iso == "-" then some none else iso.toInt?.map some)
+    some ⟨e, iso, st⟩
+  | _ => none
+
+def showLabs (l : List Lab) : String :=
+  if l.isEmpty then "-" else ",".intercalate (l.map (fun x => s!"{x.1}:{x.2}"))
+
+def showNats (l : List Nat) : String :=
+  if l.isEmpty then "-" else ",".intercalate (l.map toString)
+
+def order (d : DEdge) : Rat := Molli.Gen.Valence.bondOrder d.e.btype d.e.forder
+
+def query (n : Nat) (bonds : List (Bond DEdge)) : String :=
+  let adj := neighbors bonds
+  let starts := List.range n
+  let bfsS := ";".intercalate (starts.map (fun s => showLabs (bfsd adj n s)))
+  let dirOne := fun (s d : Nat) => match bfsdDir? adj n s d with
+    | some l => showLabs l
+    | none => "err"
+  let dirS := ";".intercalate (bonds.flatMap (fun b => [dirOne b.a1 b.a2, dirOne b.a2 b.a1]))
+  let ringS := "".intercalate (bonds.map (fun b => if inRing adj n b.a1 b.a2 then "1" else "0"))
+  let nbS := ";".intercalate (starts.map (fun u => showNats (neighbors bonds u)))
+  let bwS := ";".intercalate (starts.map (fun u => showNats ((bondsWith bonds u).map (·.attr.idx))))
+  let valS := ";".intercalate (starts.map (fun u => showRat (valence order bonds u)))
+  s!"bfs={bfsS} dir={dirS} ring={ringS} nb={nbS} bw={bwS} val={valS}"
+
+def parseGraph? (s : String) : Option (LGraph NodeA EdgeA) :=
+  match s.splitOn ";" with
+  | [as, bs] => do
+    let atoms ← ((items as).map parseAtom?).mapM id
+    let bonds ← parseBonds? bs
+    some ⟨atoms, bonds.map (fun b => ⟨b.a1, b.a2, b.attr.e⟩)⟩
+  | _ => none
+
+def showEmb (l : List (List Nat)) : String :=
+  if l.isEmpty then "-" else "|".intercalate (l.map (fun φ => ".".intercalate (φ.map toString)))
+
+def handle (payload : String) : String :=
+  let ws := words payload
+  match ws with
+  | "q" :: rest =>
+    match (kv rest "n").bind String.toNat?, (kv rest "bonds").bind parseBonds? with
+    | some n, some bonds =>
+      if bonds.all (fun b => b.a1 < n && b.a2 < n) then query n bonds else "err:bond-out-of-range"
+    | _, _ => "err:parse"
+  | "m" :: rest =>
+    match (kv rest "P").bind parseGraph?, (kv rest "G").bind parseGraph? with
+    | some P, some G =>
+      if P.bonds.all (fun b => (btypeMatch 1 b.attr.btype).isSome) then
+        showEmb (embeddings (nodeMatch 0 0) (edgeMatch 0) P G)
+      else "err:pattern-bond-type"
+    | _, _ => "err:parse"
+  | _ => "err:unknown-op"
 
 end Molli.Driver.C15
